@@ -11,7 +11,7 @@ package pubsub
 // to the scoring structures invalidates) and the peer; every obligation is universally
 // quantified over its value, so both sides and equality of each threshold are covered. What the
 // value IS is specified under C10.
-//@ ghost var scoreEpoch int
+//@ ghost var scoreEpoch mmap[string]int
 //@ tracks scoreEpoch: peerScore, peerStats, topicStats, map[peer.ID]*peerStats, map[string]*topicStats
 //@ spec fn scoreOf(epoch int, ps *peerScore, p string) real
 
@@ -19,9 +19,9 @@ package pubsub
 //@   trusted the returned value is a deterministic function of the scoring state and the peer (its definition is verified under C10)
 //@   modifies nothing
 //@   ensures nil-scorer: ps == nil ==> result == 0.0
-//@   ensures value: ps != nil ==> result == scoreOf(scoreEpoch, ps, p)
+//@   ensures value: ps != nil ==> result == scoreOf(scoreEpoch[p], ps, p)
 
-//@ spec fn score(gs *GossipSubRouter, p string) real = ite(gs.score == nil, 0.0, scoreOf(scoreEpoch, gs.score, p))
+//@ spec fn score(gs *GossipSubRouter, p string) real = ite(gs.score == nil, 0.0, scoreOf(scoreEpoch[p], gs.score, p))
 
 // ---- C09: acceptance ----
 
@@ -107,14 +107,15 @@ package pubsub
 
 // Distinct topics own distinct non-nil peer sets; no mesh set is shared with a fanout set or with
 // the direct-peer set (all three have the same Go type).
-//@ spec fn sepMesh(gs *GossipSubRouter) bool = gs.mesh != nil &&
+//@ spec fn sepMesh(gs *GossipSubRouter) bool = gs.mesh != nil && gs.mesh != gs.fanout &&
 //@      (forall t string :: t in gs.mesh ==> gs.mesh[t] != nil && allocated(gs.mesh[t]) && gs.mesh[t] != gs.direct) &&
 //@      (forall t1 string, t2 string :: t1 in gs.mesh && t2 in gs.mesh && t1 != t2 ==> gs.mesh[t1] != gs.mesh[t2]) &&
 //@      (forall t string, u string :: t in gs.mesh && u in gs.fanout ==> gs.mesh[t] != gs.fanout[u])
 
 //@ func (*peerScore).AddPenalty
-//@   trusted behaviour-penalty counter update; specified under C10
+//@   trusted behaviour-penalty counter update of that one peer; specified under C10
 //@   modifies scoreEpoch
+//@   ensures only-that-peer: forall q string :: q != p ==> scoreEpoch[q] == old(scoreEpoch[q])
 
 //@ spec fn ctlTopic(t *string) string = ite(t != nil, deref(t), "")
 //@ spec fn statedBackoff(pr *pb.ControlPrune) int = ite(pr != nil && pr.Backoff != nil, deref(pr.Backoff), 0)
@@ -188,3 +189,110 @@ package pubsub
 //@   ensures backoff-grows: forall t string, q string :: old(has(gs.backoff, t, q)) ==> has(gs.backoff, t, q) && gs.backoff[t][q] >= old(gs.backoff[t][q])
 //@   ensures response: result == nil || len(result) == len(prune)
 //@   ensures sep: sepMesh(gs) && sepBackoff(gs)
+
+// ---- C07/C08: Join and Leave ----
+
+// Per (topic, peer) counts of GRAFT / PRUNE messages handed to sendRPC by sendGraft/sendPrune
+// (definitional ghosts).
+//@ ghost var nGraft mmap[string]mmap[string]int
+//@ ghost var nPrune mmap[string]mmap[string]int
+
+//@ func (*GossipSubRouter).sendGraft
+//@   property C07 C08
+//@   noframe
+//@   modifies nGraft
+//@   ghost-effect counted: nGraft[topic][p] == old(nGraft[topic][p]) + 1 &&
+//@        (forall t string, q string :: t != topic || q != p ==> nGraft[t][q] == old(nGraft[t][q]))
+//@   ensures one-rpc: calls((*GossipSubRouter).sendRPC) == old(calls((*GossipSubRouter).sendRPC)) + 1 && lastarg((*GossipSubRouter).sendRPC, 1) == p &&
+//@        lastarg((*GossipSubRouter).sendRPC, 2) == lastret(rpcWithControl) && !lastarg((*GossipSubRouter).sendRPC, 3)
+//@   at call rpcWithControl assert graft-only: len($arg3) == 1 && $arg3[0] != nil && deref($arg3[0].TopicID) == topic &&
+//@        len($arg4) == 0 && len($arg0) == 0 && len($arg1) == 0 && len($arg2) == 0 && len($arg5) == 0
+
+//@ func (*GossipSubRouter).sendPrune
+//@   property C07 C08
+//@   noframe
+//@   modifies nPrune
+//@   ghost-effect counted: nPrune[topic][p] == old(nPrune[topic][p]) + 1 &&
+//@        (forall t string, q string :: t != topic || q != p ==> nPrune[t][q] == old(nPrune[t][q]))
+//@   ensures one-rpc: calls((*GossipSubRouter).sendRPC) == old(calls((*GossipSubRouter).sendRPC)) + 1 && lastarg((*GossipSubRouter).sendRPC, 1) == p &&
+//@        lastarg((*GossipSubRouter).sendRPC, 2) == lastret(rpcWithControl)
+//@   ensures prune-made: calls((*GossipSubRouter).makePrune) == old(calls((*GossipSubRouter).makePrune)) + 1 && lastarg((*GossipSubRouter).makePrune, 1) == p &&
+//@        lastarg((*GossipSubRouter).makePrune, 2) == topic && lastarg((*GossipSubRouter).makePrune, 3) == old(gs.doPX) && lastarg((*GossipSubRouter).makePrune, 4) == isUnsubscribe
+//@   at call rpcWithControl assert prune-only: len($arg4) == 1 && $arg4[0] == lastret((*GossipSubRouter).makePrune) &&
+//@        len($arg3) == 0 && len($arg0) == 0 && len($arg1) == 0 && len($arg2) == 0 && len($arg5) == 0
+
+// Every element of the shuffled slice is one of the old elements (and the length is kept).
+//@ func shufflePeers
+//@   property C06 C07
+//@   modifies elems(peers)
+//@   loop 1 invariant members: forall i int :: 0 <= i && i < len(peers) ==> (exists j int :: 0 <= j && j < len(peers) && peers[i] == old(peers[j]))
+//@   ensures members: forall i int :: 0 <= i && i < len(peers) ==> (exists j int :: 0 <= j && j < len(peers) && peers[i] == old(peers[j]))
+
+//@ func peerListToMap
+//@   property C06 C07
+//@   modifies nothing
+//@   loop 1 invariant built: pmap != nil && fresh(pmap) && (forall q string :: q in pmap ==> (exists j int :: 0 <= j && j <= rangeindex && q == peers[j])) &&
+//@        (forall j int :: 0 <= j && j <= rangeindex ==> peers[j] in pmap) && rangeindex + 1 <= len(peers)
+//@   ensures fresh: fresh(result)
+//@   ensures exactly: (forall q string :: q in result ==> (exists j int :: 0 <= j && j < len(peers) && q == peers[j])) &&
+//@        (forall j int :: 0 <= j && j < len(peers) ==> peers[j] in result)
+
+//@ func (*GossipSubRouter).getPeers
+//@   inline
+
+//@ spec fn sepFanout(gs *GossipSubRouter) bool = gs.fanout != nil &&
+//@      (forall t string :: t in gs.fanout ==> gs.fanout[t] != nil && allocated(gs.fanout[t]) && gs.fanout[t] != gs.direct) &&
+//@      (forall t1 string, t2 string :: t1 in gs.fanout && t2 in gs.fanout && t1 != t2 ==> gs.fanout[t1] != gs.fanout[t2])
+
+// eligible(q): what every peer that Join adds on its own initiative satisfies at selection time.
+//@ spec fn eligible(gs *GossipSubRouter, t string, q string) bool = !(q in gs.direct) && !has(gs.backoff, t, q) && score(gs, q) >= 0.0
+// what Join checks for the fanout members it carries over into the mesh (same conditions)
+//@ spec fn eligibleKept(gs *GossipSubRouter, t string, q string) bool = eligible(gs, t, q)
+
+// Join: re-join is a no-op; otherwise JOIN is traced once, the topic gets a mesh and loses its
+// fanout state, every member is a surviving fanout member or a selected candidate, all of them
+// eligible (not direct, no backoff entry, non-negative score) when selected, every member is
+// traced as GRAFT and sent exactly one GRAFT, and no other mesh changes.
+//@ func (*GossipSubRouter).Join
+//@   property C07 C08 C19
+//@   requires sep: sepMesh(gs) && sepFanout(gs) && sepBackoff(gs)
+//@   noframe
+//@   loop 1 invariant cleaning: forall q string :: has(gs.fanout, topic, q) ==> old(has(gs.fanout, topic, q)) && ($visited[q] ==> eligibleKept(gs, topic, q))
+//@   loop 1 invariant stable: stableJoin(gs, topic) && gmap == gs.fanout[topic] && topic in gs.fanout && backoff == gs.backoff[topic] && nGraftSame()
+//@   loop getPeers#1.1 invariant cands: forall i int :: 0 <= i && i < len(peers) ==> eligible(gs, topic, peers[i])
+//@   loop getPeers#1.1 invariant stable: stableJoin(gs, topic) && nGraftSame() && (forall q string :: q in gmap ==> eligibleKept(gs, topic, q))
+//@   loop getPeers#2.1 invariant cands: forall i int :: 0 <= i && i < len(peers) ==> eligible(gs, topic, peers[i])
+//@   loop getPeers#2.1 invariant stable: stableJoin(gs, topic) && nGraftSame()
+//@   loop 2 invariant adding: stableJoin(gs, topic) && nGraftSame() && gmap == gs.fanout[topic] && topic in gs.fanout &&
+//@        (forall q string :: q in gmap ==> eligibleKept(gs, topic, q)) && (forall i int :: 0 <= i && i < len(more) ==> eligible(gs, topic, more[i]))
+//@   loop 3 invariant grafting: gmap == gs.mesh[topic] && topic in gs.mesh && !(topic in gs.fanout) && otherMeshesSame(gs, topic) &&
+//@        (forall q string :: nGraft[topic][q] - old(nGraft[topic][q]) == ite($visited[q], 1, 0)) &&
+//@        (forall t string, q string :: t != topic ==> nGraft[t][q] == old(nGraft[t][q])) &&
+//@        (forall q string :: $visited[q] ==> q in gmap) && sepMesh(gs) && sepBackoff(gs) && backoffSame(gs) &&
+//@        (forall q string :: q in gmap && !$visited[q] ==> eligibleKept(gs, topic, q))
+//@   at call Graft assert member-eligible: $arg1 == p && $arg2 == topic && eligibleKept(gs, topic, p) && p in gs.mesh[topic]
+//@   at call sendGraft assert member: $arg1 == p && $arg2 == topic && !has(gs.backoff, topic, p) && !(p in gs.direct)
+//@   ensures rejoin-noop: old(topic in gs.mesh) ==> calls((*pubsubTracer).Join) == old(calls((*pubsubTracer).Join)) &&
+//@        calls((*GossipSubRouter).sendGraft) == old(calls((*GossipSubRouter).sendGraft)) && gs.mesh[topic] == old(gs.mesh[topic])
+//@   ensures joined: topic in gs.mesh && (!old(topic in gs.mesh) ==> !(topic in gs.fanout)) && (!old(topic in gs.mesh) && old(topic in gs.fanout) ==> !(topic in gs.lastpub))
+//@   ensures no-direct-member: !old(topic in gs.mesh) ==> (forall q string :: has(gs.mesh, topic, q) ==> !(q in gs.direct))
+//@   ensures join-traced: !old(topic in gs.mesh) ==> calls((*pubsubTracer).Join) == old(calls((*pubsubTracer).Join)) + 1 && lastarg((*pubsubTracer).Join, 1) == topic
+//@   ensures every-member-grafted-once: !old(topic in gs.mesh) ==> (forall q string :: nGraft[topic][q] - old(nGraft[topic][q]) == ite(has(gs.mesh, topic, q), 1, 0))
+//@   ensures no-other-grafts: forall t string, q string :: t != topic ==> nGraft[t][q] == old(nGraft[t][q])
+//@   ensures other-meshes: otherMeshesSame(gs, topic)
+//@   ensures backoff-untouched: backoffSame(gs)
+//@   ensures sep: sepMesh(gs) && sepBackoff(gs)
+
+//@ spec fn stableJoin(gs *GossipSubRouter, topic string) bool = sepMesh(gs) && sepFanout(gs) && sepBackoff(gs) && backoffSame(gs) &&
+//@      gs.direct == old(gs.direct) && (forall q string :: (q in gs.direct) == old(q in gs.direct)) &&
+//@      (forall t string :: (t in gs.mesh) == old(t in gs.mesh) && gs.mesh[t] == old(gs.mesh[t])) &&
+//@      (forall t string, q string :: has(gs.mesh, t, q) == old(has(gs.mesh, t, q))) &&
+//@      (forall q string :: scoreEpoch[q] == old(scoreEpoch[q])) && gs.score == old(gs.score) &&
+//@      gs.fanout == old(gs.fanout) && (forall t string :: (t in gs.fanout) == old(t in gs.fanout) && gs.fanout[t] == old(gs.fanout[t]))
+//@ spec fn backoffSame(gs *GossipSubRouter) bool = gs.backoff == old(gs.backoff) &&
+//@      (forall t string :: (t in gs.backoff) == old(t in gs.backoff) && gs.backoff[t] == old(gs.backoff[t])) &&
+//@      (forall t string, q string :: has(gs.backoff, t, q) == old(has(gs.backoff, t, q)) && gs.backoff[t][q] == old(gs.backoff[t][q]))
+//@ spec fn otherMeshesSame(gs *GossipSubRouter, topic string) bool =
+//@      (forall t string :: t != topic ==> (t in gs.mesh) == old(t in gs.mesh) && gs.mesh[t] == old(gs.mesh[t])) &&
+//@      (forall t string, q string :: t != topic ==> has(gs.mesh, t, q) == old(has(gs.mesh, t, q)))
+//@ spec fn nGraftSame() bool = forall t string, q string :: nGraft[t][q] == old(nGraft[t][q])
